@@ -340,9 +340,12 @@ fn get_digit_i64(base2k: usize, x: i64) -> i64 {
     (x << (u64::BITS - base2k as u32)) >> (u64::BITS - base2k as u32)
 }
 
+/// `(x - digit) >> base2k` for `digit = get_digit_i64(base2k, x)`, computed without forming `x - digit`
+/// (which overflows for `x` at the top of the `i64` range when `digit < 0`): `x = digit + 2^base2k * carry`
+/// with `digit` the balanced residue, hence `carry = floor(x / 2^base2k) + [digit < 0]`.
 #[inline(always)]
 fn get_carry_i64(base2k: usize, x: i64, digit: i64) -> i64 {
-    (x.wrapping_sub(digit)) >> base2k
+    (x >> base2k) + ((digit < 0) as i64)
 }
 
 #[inline(always)]
@@ -350,9 +353,10 @@ fn get_digit_i128(base2k: usize, x: i128) -> i128 {
     (x << (u128::BITS - base2k as u32)) >> (u128::BITS - base2k as u32)
 }
 
+/// See [`get_carry_i64`].
 #[inline(always)]
 fn get_carry_i128(base2k: usize, x: i128, digit: i128) -> i128 {
-    (x.wrapping_sub(digit)) >> base2k
+    (x >> base2k) + ((digit < 0) as i128)
 }
 
 #[inline(always)]
